@@ -295,6 +295,7 @@ func (l *Loaded) verifyFunc(r *Runner, fn *ssa.Function, sp *FuncSpec) (res *FnR
 	r.work = append(r.work, st)
 	r.csEvaluated = map[string]bool{}
 	r.beforeHit = map[string]bool{}
+	r.wantPostSnap = specMentions(sp, "mapsamesince(")
 	r.run()
 	for callee, cs := range sp.Before {
 		for _, c := range cs {
@@ -525,4 +526,23 @@ func dirsForProp(prop string) []string {
 		}
 	}
 	return out
+}
+
+// specMentions reports whether any clause of the contract contains the text.
+func specMentions(sp *FuncSpec, what string) bool {
+	for _, cs := range [][]Clause{sp.Requires, sp.Ensures, sp.CSEnsures, sp.Covers} {
+		for _, c := range cs {
+			if strings.Contains(c.Src, what) {
+				return true
+			}
+		}
+	}
+	for _, cs := range sp.Before {
+		for _, c := range cs {
+			if strings.Contains(c.Src, what) {
+				return true
+			}
+		}
+	}
+	return false
 }
